@@ -582,7 +582,13 @@ func c24QueryRoundTrip(rec *kit.Rec, q query.Q, r *rand.Rand, note func(string))
 			return
 		}
 		if dp, w := c24QDiff(q, back, r, note); dp != "" {
-			rec.Violation("roundtrip"+path+"/Q/"+dp, fmt.Sprintf("query changed by the round trip at %s: %s", dp, w),
+			// the signature names the node kind and what of it changed, not where in the
+			// tree the node sits (one lost field must not give one signature per tree shape)
+			node := dp
+			if i := strings.LastIndex(dp, "/"); i >= 0 {
+				node = dp[i+1:]
+			}
+			rec.Violation("roundtrip"+path+"/Q/"+node, fmt.Sprintf("query changed by the round trip at %s: %s", dp, w),
 				map[string]any{"query": q.String(), "after": back.String(), "difference": w, "wire_hex": hex.EncodeToString(wire[:min(len(wire), 2048)])})
 		}
 	}
